@@ -28,7 +28,12 @@ typedef struct {
     int colperm, trans, equil, refine, nr, symm, condnum, pivg, extra;
     double u;
     int ilu_drop, ilu_milu, ilu_rowperm, ilu_norm; double ilu_droptol, ilu_fill;
+    /* caller-supplied work area (lwork > 0) for gssvx / gsisx / gstrf: the CALLER of job_run owns the
+       buffer and decides what it contains when the job starts (garbage, or what earlier jobs left) */
+    int userwork; void *work; long lwork;
 } job_t;
+#define JOB_LWORK (1L << 20)
+static void *job_work_new(int fill) { void *w = malloc(JOB_LWORK + 16); memset(w, fill, JOB_LWORK + 16); return w; }
 
 #define OB_MAXSEC 96
 typedef struct { unsigned char *p; size_t n, cap; const char *sec[OB_MAXSEC]; size_t secoff[OB_MAXSEC]; int nsec; } obuf_t;
@@ -56,11 +61,13 @@ static long ob_diff(const obuf_t *a, const obuf_t *b, const char **sec) {
 static int job_debug = -1;
 static void job_run(const job_t *j, obuf_t *o) {
     if (job_debug < 0) job_debug = getenv("THREADS_DEBUG") != NULL;
-    if (job_debug) fprintf(stderr, "JOB kind=%s ty=%c n=%d nnz=%ld pat=%s val=%s nrhs=%d ldb=%d colperm=%d trans=%d equil=%d refine=%d nr=%d symm=%d cond=%d pivg=%d extra=%d u=%g ilu(drop=0x%x milu=%d rowperm=%d norm=%d tol=%g fill=%g) tuning=%d,%d,%d,%d,%d,%d,%d\n",
-        job_names[j->kind], j->ty, j->n, j->g.nnz, j->g.pat, j->g.val, j->nrhs, j->ldb, j->colperm, j->trans, j->equil, j->refine, j->nr, j->symm, j->condnum, j->pivg, j->extra, j->u,
+    if (job_debug) fprintf(stderr, "JOB kind=%s ty=%c n=%d nnz=%ld pat=%s val=%s nrhs=%d ldb=%d colperm=%d trans=%d equil=%d refine=%d nr=%d symm=%d cond=%d pivg=%d extra=%d u=%g userwork=%d ilu(drop=0x%x milu=%d rowperm=%d norm=%d tol=%g fill=%g) tuning=%d,%d,%d,%d,%d,%d,%d\n",
+        job_names[j->kind], j->ty, j->n, j->g.nnz, j->g.pat, j->g.val, j->nrhs, j->ldb, j->colperm, j->trans, j->equil, j->refine, j->nr, j->symm, j->condnum, j->pivg, j->extra, j->u, j->userwork,
         j->ilu_drop, j->ilu_milu, j->ilu_rowperm, j->ilu_norm, j->ilu_droptol, j->ilu_fill,
         slu_verif_ienv[1], slu_verif_ienv[2], slu_verif_ienv[3], slu_verif_ienv[4], slu_verif_ienv[5], slu_verif_ienv[6], slu_verif_ienv[7]);
+    long lb0 = job_debug ? led_live_blocks(1) : 0;
     DISPATCH_TY(j->ty, job_run, j, o);
+    if (job_debug) fprintf(stderr, "JOBEND live %+ld\n", led_live_blocks(1) - lb0);
 }
 
 static void job_gen(rng_t *r, int thorough, char ty, int forced_kind, job_t *j) {
@@ -89,6 +96,10 @@ static void job_gen(rng_t *r, int thorough, char ty, int forced_kind, job_t *j) 
     j->symm = rng_chance(r, 0.2); j->condnum = rng_chance(r, 0.7); j->pivg = rng_chance(r, 0.7); j->extra = rng_int(r, 0, 3);
     { static const double us[] = { 1.0, 1.0, 0.5, 0.1, 0.001, 0.0 }; j->u = us[rng_int(r, 0, 5)]; }
     if (j->symm && j->colperm != 2) j->symm = (j->kind == JOB_PERM);
+    /* a third of the factoring jobs work in a caller-supplied area; symmetric mode (the only user of
+       heap_relax_snode) is then drawn more often */
+    j->userwork = (j->kind == JOB_GSSVX || j->kind == JOB_GSISX || j->kind == JOB_PIPE) && rng_chance(r, 0.35);
+    if (j->userwork && j->kind != JOB_GSISX && rng_chance(r, 0.5)) { j->symm = 1; j->colperm = 2; }
     /* ILU options: the basic rule or the default (BASIC|AREA) with the default fill factor; the other
        secondary rules with small fill factors overflow dwork2 in ilu_?copy_to_ucol.c:175 (a C15/C19
        finding, reproduced by fam_lifecycle) and would only add noise to a schedule test */
@@ -97,6 +108,7 @@ static void job_gen(rng_t *r, int thorough, char ty, int forced_kind, job_t *j) 
     j->ilu_droptol = rng_chance(r, 0.3) ? 0.0 : 1e-4 * rng_int(r, 1, 100); j->ilu_fill = 10.0;
 }
 static void job_free(job_t *j) { gmat_free(&j->g); free(j->bre); free(j->bim); }
+static int job_uw_count(const job_t *j, int n) { int c = 0; for (int i = 0; i < n; i++) c += j[i].userwork; return c; }
 
 /* ------------------------------------------------------------------ concurrent phase */
 typedef struct {
@@ -141,8 +153,13 @@ static void conc_case(ctx_t *c, long idx, rng_t *r) {
     { int anyilu = 0; for (int t = 0; t < T; t++) for (int k = 0; k < w[t].njobs; k++) anyilu |= jobs[t][k].kind == JOB_GSISX;
       fprintf(stderr, "BEGIN %s %ld conc%s\n", c->family, idx, anyilu ? " has-ilu-job" : ""); fflush(stderr); }
     led_poison(0xA5);
-    /* reference: each job alone */
-    for (int t = 0; t < T; t++) for (int k = 0; k < w[t].njobs; k++) job_run(&jobs[t][k], &ref[t][k]);
+    /* reference: each job alone (a user work area starts filled with 0xC3) */
+    for (int t = 0; t < T; t++) for (int k = 0; k < w[t].njobs; k++) {
+        if (jobs[t][k].userwork) { jobs[t][k].work = job_work_new(0xC3); jobs[t][k].lwork = JOB_LWORK; }
+        job_run(&jobs[t][k], &ref[t][k]);
+        /* the concurrent run gets the same area as the reference run left it, overwritten with 0x3C in its first half */
+        if (jobs[t][k].userwork) memset(jobs[t][k].work, 0x3C, JOB_LWORK / 2);
+    }
     long live_before = led_live_blocks(1);
     /* concurrent */
     pthread_t th[MAXT];
@@ -150,11 +167,13 @@ static void conc_case(ctx_t *c, long idx, rng_t *r) {
     for (int t = 0; t < T; t++) pthread_join(th[t], NULL);
     pthread_barrier_destroy(&bar);
     long live_after = led_live_blocks(1);
+    if (live_after != live_before && getenv("THREADS_DEBUG")) led_dump(stderr, 1);
     led_poison(-1);
     clear_tuning();
     /* protocol (single-threaded again) */
     out_case(c->out, c->family, idx);
     out_p(c->out, "mode", "conc"); out_p(c->out, "threads", "%d", T); out_p(c->out, "jobs", "%d", total);
+    { int uw = 0; for (int t = 0; t < T; t++) uw += job_uw_count(jobs[t], w[t].njobs); out_p(c->out, "userwork", "%d", uw); out_p(c->out, "symm", "0"); }
     out_p(c->out, "tuned", "%d", tune[1] != 0);
     int *kinds = malloc(sizeof(int) * total), *infos = malloc(sizeof(int) * total), *tys = malloc(sizeof(int) * total), *ns = malloc(sizeof(int) * total);
     int *hr = malloc(sizeof(int) * 2 * total), *hg = malloc(sizeof(int) * 2 * total), *lr = malloc(sizeof(int) * total), *lg = malloc(sizeof(int) * total);
@@ -178,7 +197,7 @@ static void conc_case(ctx_t *c, long idx, rng_t *r) {
     out_p(c->out, "live_delta", "%ld", live_after - live_before);
     out_p(c->out, "double_frees", "%ld", led_double_frees());
     out_end(c->out);
-    for (int t = 0; t < T; t++) for (int k = 0; k < w[t].njobs; k++) { ob_free(&ref[t][k]); ob_free(&got[t][k]); job_free(&jobs[t][k]); }
+    for (int t = 0; t < T; t++) for (int k = 0; k < w[t].njobs; k++) { ob_free(&ref[t][k]); ob_free(&got[t][k]); if (jobs[t][k].userwork) free(jobs[t][k].work); job_free(&jobs[t][k]); }
     free(kinds); free(infos); free(tys); free(ns); free(hr); free(hg); free(lr); free(lg);
 }
 
@@ -194,6 +213,11 @@ static void hist_case(ctx_t *c, long idx, rng_t *r) {
     obuf_t o1, o2, o3; memset(&o1, 0, sizeof o1); memset(&o2, 0, sizeof o2); memset(&o3, 0, sizeof o3);
     { int anyilu = J.kind == JOB_GSISX; for (int k = 0; k < nun; k++) anyilu |= un[k].kind == JOB_GSISX;
       fprintf(stderr, "BEGIN %s %ld hist%s\n", c->family, idx, anyilu ? " has-ilu-job" : ""); fflush(stderr); }
+    /* one work area for the whole history: clean (0xA5) for the first run of J, then whatever the
+       unrelated jobs that used it left behind */
+    void *W = job_work_new(0xA5);
+    J.work = W; J.lwork = JOB_LWORK; for (int k = 0; k < nun; k++) { un[k].work = W; un[k].lwork = JOB_LWORK; }
+    if (J.userwork) { int any = 0; for (int k = 0; k < nun; k++) any |= un[k].userwork; if (!any) un[0].userwork = (un[0].kind == JOB_GSSVX || un[0].kind == JOB_GSISX || un[0].kind == JOB_PIPE); }
     led_poison(0xA5);
     job_run(&J, &o1);
     for (int k = 0; k < split; k++) job_run(&un[k], &uo[k]);
@@ -202,9 +226,11 @@ static void hist_case(ctx_t *c, long idx, rng_t *r) {
     for (int k = split; k < nun; k++) job_run(&un[k], &uo[k]);
     job_run(&J, &o3);
     led_poison(-1);
+    free(W);
     clear_tuning();
     out_case(c->out, c->family, idx);
     out_p(c->out, "mode", "hist"); out_p(c->out, "threads", "1"); out_p(c->out, "jobs", "%d", 3 + nun);
+    out_p(c->out, "userwork", "%d", J.userwork); out_p(c->out, "symm", "%d", J.symm);
     out_p(c->out, "tuned", "%d", tune[1] != 0);
     int kinds[1] = { J.kind }, tys[1] = { J.ty }, ns[1] = { J.n };
     int_t inf = -99; if (J.kind != JOB_PERM && J.kind != JOB_PIPE && o1.n >= sizeof inf) memcpy(&inf, o1.p, sizeof inf);
